@@ -637,7 +637,7 @@ func TestC17ReadOnly(t *testing.T) {
 		log := g.Log
 		g.Cleanup()
 		preload := rapid.Bool().Draw(rt, "preload")
-		if v := c17ReadOnlyProgram(rt, log, preload, col); v != nil {
+		if v := drv.Guard("read-only program", func() *drv.Violation { return c17ReadOnlyProgram(rt, log, preload, col) }); v != nil {
 			failCase(rt, replayDoc{Property: "C17", Kind: "readonly-program", Ops: log, Extra: mustJSON(c17Doc{preload})}, v)
 		}
 	})
@@ -653,7 +653,7 @@ func replayC17(t *testing.T, d replayDoc) *drv.Violation {
 	case "readonly-program":
 		var doc c17Doc
 		_ = jsonUnmarshal(d.Extra, &doc)
-		return c17ReadOnlyProgram(nil, d.Ops, doc.Preload, nil)
+		return drv.Guard("read-only program", func() *drv.Violation { return c17ReadOnlyProgram(nil, d.Ops, doc.Preload, nil) })
 	}
 	return replayHistoryC04(t, d)
 }
